@@ -27,9 +27,6 @@ func (x *Exec) rangeOther(s *ast.RangeStmt, st *State, coll Val, lc *LoopContrac
 	return nil
 }
 
-func (p *Prog) extraObligations(o checkOpts) (obs []*Obligation, notes []string, errs []string) {
-	return nil, nil, nil
-}
 func (p *Prog) replayKnown(o checkOpts, f KnownFinding) (bool, string) { return true, "replay not built yet" }
 func (p *Prog) replayLemmaWitness(o checkOpts, lr *LemmaResult) (bool, string) {
 	return false, "replay not built yet"
